@@ -181,7 +181,7 @@ contract(E + 'analyze_scalar', props=['C15', 'C02', 'C05'], max_paths=2,
                  5: 'plain-only-without-line-breaks-as-predicate', 6: 'flags-are-booleans'},
          axioms=["forall(j, 0, len(scalar), scalar[j] not in %s) ==> nobreaks(scalar)" % BRK],
          # lemmas placed right after the two classification statements of the loop body (the state is still simple there)
-         cuts=[("if not (ch == '\\n' or ' ' <= ch <= '~'):", ["not special_characters ==> okc(self, ch)", "ch == scalar[index] and 0 <= index and index < len(scalar)",
+         cuts=[("if not (ch == '\\n' or ' ' <= ch <= '~'):", ["ch == scalar[index] and 0 <= index and index < len(scalar) and len(ch) == 1", "not special_characters ==> okc(self, ch)",
                                                                "not special_characters ==> forall(j, 0, index, okc(self, scalar[j]))"]),
                ("if ch in '\\n\\x85\\u2028\\u2029':\n    line_breaks = True", ["not line_breaks ==> ch not in %s" % BRK, "not line_breaks ==> forall(j, 0, index, scalar[j] not in %s)" % BRK])],
          invariants={0: _AS_INV}, modifies=[], raises=[])
